@@ -434,11 +434,12 @@ def shrink_case(prop, drv, case, pred, max_steps=400):
     """greedy delta debugging with the property's own `shrink` candidates"""
     steps = 0
     improved = True
-    while improved and steps < max_steps:
+    t_end = time.time() + float(os.environ.get("HV_SHRINK_BUDGET_S", "150"))
+    while improved and steps < max_steps and time.time() < t_end:
         improved = False
         for cand in prop.shrink(case):
             steps += 1
-            if steps > max_steps:
+            if steps > max_steps or time.time() > t_end:
                 break
             try:
                 if pred(cand):
